@@ -53,11 +53,19 @@ Example C07_regular_nontrivial :
 Proof. exact regular_conventional. Qed.
 Print Assumptions C07_regular_nontrivial.
 
-(* exactly the paged methods are wrapped in a pager by the sync and the asyncio client, and get classes *)
-Theorem C07_wrap_iff_paged : forall (is_async : bool) (m : rpc),
-  (exists w, client_wrap is_async m = Some w) <-> (exists f, paged_result_field (r_req m) (r_resp m) = Some f).
-Proof. exact wrap_iff_paged. Qed.
-Print Assumptions C07_wrap_iff_paged.
+(* a client method (sync or asyncio) returns a pager exactly under the code's condition on its two shapes, and
+   pagers.py holds one class per paged method (two when a gRPC transport is generated) *)
+Theorem C07_wrap_iff_code_paged : forall (is_async : bool) (m : rpc),
+  uniq (r_req m) -> uniq (r_resp m) ->
+  ((exists w, client_wrap is_async m = Some w) <-> code_paged (r_req m) (r_resp m)).
+Proof. exact wrap_iff_code_paged. Qed.
+Print Assumptions C07_wrap_iff_code_paged.
+
+Theorem C07_pagers_module_classes : forall (with_async : bool) (ms : list rpc),
+  length (pagers_module with_async ms) =
+  (if with_async then 2 else 1) * length (filter (fun m => is_paged (r_req m) (r_resp m)) ms).
+Proof. exact pagers_module_classes. Qed.
+Print Assumptions C07_pagers_module_classes.
 
 (* ---- the pager loop: for all item/attribute/request/option types, all requests, all server histories ---- *)
 
